@@ -447,6 +447,11 @@ def dirFds : Fds := (insertAt (insertAt (insertAt stdio Kind.pre 3).1 Kind.file 
 example : (call true true { preEntries := [1, 5, 4], dirEntries := [1] } dirFds zeroPage "fd_readdir" [5, 8192, 256, 0, 16384]).map
       (fun rs => rs.map (fun r => (r.err, r.writes)))
     = some [(Err.errno 0, [Wr.region 8192 76, Wr.bytes 16384 [76, 0, 0, 0]])] := by decide
+/-- with the names known the dirents themselves are predicted: d_next = 1, 2, 3, d_namlen, d_type = directory,
+directory, regular file, and the names ".", "..", "g" (test, sample) -/
+example : (call true true { dirEntries := [1], dirNames := [([103], 4)] } dirFds zeroPage "fd_readdir" [5, 8192, 256, 0, 16384]).map
+      (fun rs => rs.map (fun r => (r.err, r.writes.length, r.writes.getLast?)))
+    = some [(Err.errno 0, 11, some (Wr.bytes 16384 [76, 0, 0, 0]))] := by decide
 example : ((pathOpen dirFds zeroPage 3 2048 0 0 16384).map (fun r => (r.err, r.writes))) =
     [(Err.errno 28, [])] := by decide   -- path_len = 0: EINVAL
 
